@@ -15,6 +15,7 @@ import (
 	"sort"
 	"strconv"
 	"sync"
+	"sync/atomic"
 	"testing/synctest"
 	"time"
 )
@@ -55,9 +56,13 @@ type Sim struct {
 	Horizon  time.Duration
 	Start    time.Time
 
-	goids    map[int64]string
-	live     int // foreground tasks not yet finished
-	draining bool
+	goids     map[int64]string
+	live      int // foreground tasks not yet finished
+	draining  bool
+	drainFlag atomic.Bool // race mode: read by every poller (loads do not synchronise with each other)
+	gateMu    sync.Mutex
+	gates     map[*sync.RWMutex]bool
+	Free      bool // race mode: no baton; goroutines run freely inside the bubble and seams wait by polling on the fake clock
 
 	hash    uint64 // FNV-1a over the event log
 	fp      uint64 // schedule fingerprint (abstract)
@@ -86,6 +91,7 @@ func NewSim(t *Tape) *Sim {
 		Horizon:  10 * time.Minute,
 		Start:    time.Now(),
 		goids:    map[int64]string{},
+		gates:    map[*sync.RWMutex]bool{},
 		hash:     14695981039346656037,
 		fp:       14695981039346656037,
 		Counters: map[string]int{},
@@ -109,6 +115,9 @@ func goid() int64 {
 func (s *Sim) Now() time.Duration { return time.Since(s.Start) }
 
 func (s *Sim) Count(key string) {
+	if s.Free {
+		return
+	}
 	s.mu.Lock()
 	s.Counters[key]++
 	s.mu.Unlock()
@@ -128,6 +137,9 @@ func (s *Sim) mixHash(b []byte) {
 }
 
 func (s *Sim) mixFP(str string) {
+	if s.Free {
+		return
+	}
 	h := s.fp
 	for i := 0; i < len(str); i++ {
 		h ^= uint64(str[i])
@@ -140,6 +152,9 @@ func (s *Sim) mixFP(str string) {
 
 // logLocked appends one event to the run's log. Caller holds s.mu.
 func (s *Sim) logLocked(format string, args ...any) {
+	if s.Free {
+		return // race mode keeps no event log: the caller may hold a per-connection lock instead of s.mu
+	}
 	s.buf = s.buf[:0]
 	s.buf = fmt.Appendf(s.buf, "%d %d ", s.Step, int64(time.Since(s.Start)))
 	s.buf = fmt.Appendf(s.buf, format, args...)
@@ -151,6 +166,9 @@ func (s *Sim) logLocked(format string, args ...any) {
 
 // Logf records an event in the deterministic event log.
 func (s *Sim) Logf(format string, args ...any) {
+	if s.Free {
+		return
+	}
 	s.mu.Lock()
 	s.logLocked(format, args...)
 	s.mu.Unlock()
@@ -160,6 +178,9 @@ func (s *Sim) Logf(format string, args ...any) {
 // meaningful (e.g. Shutdown closing idle connections in map order); such
 // effects are sorted before they enter the hash.
 func (s *Sim) LogUnordered(str string) {
+	if s.Free {
+		return
+	}
 	s.mu.Lock()
 	s.closeBatch = append(s.closeBatch, str)
 	s.mu.Unlock()
@@ -178,6 +199,9 @@ func (s *Sim) flushUnorderedLocked() {
 
 // FP adds an abstract token to the schedule fingerprint.
 func (s *Sim) FP(tok string) {
+	if s.Free {
+		return
+	}
 	s.mu.Lock()
 	s.mixFP(tok)
 	s.mu.Unlock()
@@ -203,6 +227,19 @@ func (s *Sim) taskOfGoroutine() string {
 type Task struct {
 	S    *Sim
 	Name string
+	rng  uint64
+}
+
+// Choose is a tape decision in baton mode and a task-private pseudo-random draw in race mode (a shared tape would
+// need a shared lock, and every shared lock adds happens-before edges that hide races).
+func (tk *Task) Choose(n int) int {
+	if n <= 1 {
+		return 0
+	}
+	if tk.S.Free {
+		return int(splitmix(&tk.rng) % uint64(n))
+	}
+	return tk.S.Choose(n)
 }
 
 // Go starts a harness task. Foreground tasks keep the run alive; daemon tasks
@@ -239,8 +276,10 @@ func (s *Sim) Go(name string, daemon bool, f func(tk *Task)) {
 			default:
 			}
 		}()
-		tk := &Task{S: s, Name: name}
-		tk.Yield("start")
+		tk := &Task{S: s, Name: name, rng: HashString(name) ^ s.Tape.state}
+		if !s.Free {
+			tk.Yield("start")
+		}
 		f(tk)
 	}()
 }
@@ -251,7 +290,14 @@ func (s *Sim) Go(name string, daemon bool, f func(tk *Task)) {
 // canonical identity of the waiter (task name, or connection+direction for
 // transport calls); a second waiter arriving under the same id gets a numeric
 // suffix, which is deterministic because arrivals are serialised by the baton.
-func (s *Sim) Park(id, label string, poll PollFunc) Reason {
+func (s *Sim) Park(id, label string, poll PollFunc) Reason { return s.ParkL(id, label, nil, poll) }
+
+// ParkL is Park for waiters whose condition reads state guarded by lk in race mode (ignored in baton mode, where
+// the scheduler evaluates every condition while nothing else runs).
+func (s *Sim) ParkL(id, label string, lk sync.Locker, poll PollFunc) Reason {
+	if s.Free {
+		return s.parkFree(lk, poll)
+	}
 	s.mu.Lock()
 	if s.draining {
 		s.mu.Unlock()
@@ -279,6 +325,53 @@ func (s *Sim) Park(id, label string, poll PollFunc) Reason {
 	default:
 	}
 	return <-w.ch
+}
+
+// parkFree is Park in race mode: the caller itself re-evaluates its condition, sleeping on the fake clock in
+// between (durable blocking, so simulated time advances when everybody waits). Nothing decides who runs next.
+func (s *Sim) parkFree(lk sync.Locker, poll PollFunc) Reason {
+	const quantum = 200 * time.Microsecond
+	for {
+		if s.drainFlag.Load() {
+			return Drained
+		}
+		now := time.Now()
+		if lk != nil {
+			lk.Lock()
+		}
+		ok, r, next := poll(now)
+		if lk != nil {
+			lk.Unlock()
+		}
+		if ok {
+			return r
+		}
+		d := quantum
+		if !next.IsZero() && next.Sub(now) < d {
+			d = next.Sub(now)
+		}
+		if d <= 0 {
+			d = time.Microsecond
+		}
+		time.Sleep(d)
+	}
+}
+
+// Choose draws from the schedule tape on behalf of a task (safe in race mode).
+func (s *Sim) Choose(n int) int {
+	s.mu.Lock()
+	defer s.mu.Unlock()
+	return s.Tape.Choose(n)
+}
+
+// StepNow returns the global event sequence number.
+func (s *Sim) StepNow() int {
+	if s.Free {
+		return 0
+	}
+	s.mu.Lock()
+	defer s.mu.Unlock()
+	return s.Step
 }
 
 func always(time.Time) (bool, Reason, time.Time) { return true, Ready, time.Time{} }
@@ -326,6 +419,29 @@ func (s *Sim) BeforeLock(l *sync.RWMutex, write bool, name string) {
 		}
 		return false, Ready, time.Time{}
 	}
+	if s.Free {
+		// Race mode. A goroutine blocked in sync.Mutex.Lock is not durably blocked, so the fake clock would
+		// stop for as long as the holder sleeps on a timer (for ever, in wall time). Contenders therefore queue at a
+		// harness-side gate (released by AfterLock once the real lock is held) and wait durably, by polling on the fake
+		// clock, until the real lock is free. The gate orders nothing that the real lock does not order more strongly.
+		for i := 0; i < 200000; i++ {
+			s.gateMu.Lock()
+			if !s.gates[l] {
+				s.gates[l] = true
+				s.gateMu.Unlock()
+				break
+			}
+			s.gateMu.Unlock()
+			time.Sleep(20 * time.Microsecond)
+		}
+		for i := 0; i < 1000000; i++ {
+			if ok, _, _ := poll(time.Time{}); ok {
+				return
+			}
+			time.Sleep(20 * time.Microsecond)
+		}
+		return
+	}
 	id := s.taskOfGoroutine()
 	if id == "" {
 		id = "zz-lock:" + name // a goroutine of the code under test (e.g. a server connection goroutine)
@@ -342,11 +458,25 @@ func (s *Sim) BeforeLock(l *sync.RWMutex, write bool, name string) {
 	}
 }
 
+// AfterLock is installed as the repo's SimAfterLock hook (race mode only: opens the gate for the next contender).
+func (s *Sim) AfterLock(l *sync.RWMutex) {
+	if !s.Free {
+		return
+	}
+	s.gateMu.Lock()
+	s.gates[l] = false
+	s.gateMu.Unlock()
+}
+
 // ---- the scheduler loop ----
 
 // Run schedules until every foreground task has finished, the step budget is
 // exhausted, an invariant fails or the system hangs.
 func (s *Sim) Run() {
+	if s.Free {
+		s.runFree()
+		return
+	}
 	var elig []*waiter
 	var reasons []Reason
 	for {
@@ -433,12 +563,38 @@ func (s *Sim) Run() {
 	}
 }
 
+func (s *Sim) runFree() {
+	limit := time.Now().Add(2 * time.Minute) // simulated
+	for {
+		s.mu.Lock()
+		live := s.live
+		s.mu.Unlock()
+		if live == 0 {
+			return
+		}
+		if time.Now().After(limit) {
+			s.mu.Lock()
+			s.Hang = true
+			s.mu.Unlock()
+			return
+		}
+		time.Sleep(500 * time.Microsecond)
+	}
+}
+
 // Drain ends the run: every parked goroutine is released with Drained (seams
 // then return closed/aborted errors) until nothing parks any more.
 func (s *Sim) Drain() {
 	s.mu.Lock()
 	s.draining = true
 	s.mu.Unlock()
+	s.drainFlag.Store(true)
+	if s.Free {
+		for i := 0; i < 60; i++ {
+			time.Sleep(50 * time.Millisecond) // pollers notice the flag; real-code timers fire
+		}
+		return
+	}
 	idle := 0
 	for i := 0; i < 5000 && idle < 40; i++ {
 		synctest.Wait()
